@@ -6,7 +6,7 @@ import applyc, streams, gen, emit, scen
 
 THEOREMS = {"C12": ["strip_path_spec", "strip_path_basename", "unquote_quote", "file_line_plain", "file_line_quoted",
                     "guess_order", "guess_never_devnull"],
-            "C13": [],
+            "C13": ["consume_printed", "parse_unified_header", "unified_roundtrip", "rejects_loop", "rejects_skipped"],
             "C14": ["split_lines_roundtrip", "split_lines_wf", "terminator_keep", "terminator_lf", "terminator_crlf",
                     "final_newline_iff", "apply_output_lines"],
             "C20": ["define_eval"]}
